@@ -45,6 +45,7 @@ type Scn struct {
 	HoldMS     int    `json:"hold_ms"`
 	Outage     [2]int `json:"outage_ms"` // active-check scenarios: upstream 0 refuses during [from,to)
 	MaxFailing int    `json:"max_failing_dials"`
+	Peers      int    `json:"peers_of_upstream0,omitempty"` // 2: upstream 0 dials two addresses (every connection goes to both)
 }
 
 type vclock struct{}
@@ -55,6 +56,7 @@ func (vclock) NewTicker(d time.Duration) *time.Ticker { return time.NewTicker(d)
 type dialRec struct {
 	At     int64
 	Up     int
+	Peer   int
 	OK     bool
 	Health bool // dialled by the active health checker
 }
@@ -74,9 +76,25 @@ type result struct {
 	peers       [][]l4proxy.VerifPeerState // snapshots at the end
 	negSeen     string
 	provisionAt int64
+	snapshotAt  int64
 }
 
 var addrs = []string{"10.0.0.10:80", "10.0.0.11:80"}
+
+const secondPeer = "10.0.0.12:80" // second dial address of upstream 0 in the multi-peer family
+
+type target struct {
+	addr     string
+	up, peer int
+}
+
+func targets(sc *Scn) []target {
+	ts := []target{{addrs[0], 0, 0}, {addrs[1], 1, 0}}
+	if sc.Peers == 2 {
+		ts = append(ts, target{secondPeer, 0, 1})
+	}
+	return ts
+}
 
 func execute(x *explore.Exec, sc *Scn) *result {
 	res := &result{}
@@ -93,9 +111,9 @@ func execute(x *explore.Exec, sc *Scn) *result {
 		nw := vnet.NewNet()
 		vnet.Current = nw
 		defer func() { vnet.Current = nil }()
-		for u := range addrs {
-			u := u
-			nw.Handle(addrs[u], func(client net.Addr) (net.Conn, error) {
+		for _, tg := range targets(sc) {
+			u, tg := tg.up, tg
+			nw.Handle(tg.addr, func(client net.Addr) (net.Conn, error) {
 				health := nw.WithTimeout
 				ok := true
 				if sc.ActiveMS > 0 {
@@ -108,7 +126,7 @@ func execute(x *explore.Exec, sc *Scn) *result {
 					}
 				}
 				res.mu.Lock()
-				res.dials = append(res.dials, dialRec{At: vsched.NowNS(), Up: u, OK: ok, Health: health})
+				res.dials = append(res.dials, dialRec{At: vsched.NowNS(), Up: u, Peer: tg.peer, OK: ok, Health: health})
 				res.mu.Unlock()
 				if !ok {
 					return nil, vnet.ErrRefused
@@ -121,9 +139,13 @@ func execute(x *explore.Exec, sc *Scn) *result {
 				return cEnd, nil
 			})
 		}
+		dial0 := []string{addrs[0]}
+		if sc.Peers == 2 {
+			dial0 = append(dial0, secondPeer)
+		}
 		px := map[string]any{"handler": "proxy",
 			"upstreams": []map[string]any{
-				{"dial": []string{addrs[0]}, "max_connections": sc.MaxConns},
+				{"dial": dial0, "max_connections": sc.MaxConns},
 				{"dial": []string{addrs[1]}, "max_connections": sc.MaxConns}},
 			"load_balancing": map[string]any{"selection": map[string]any{"policy": "first"},
 				"try_duration": fmt.Sprintf("%dms", sc.TryDurMS), "try_interval": fmt.Sprintf("%dms", sc.TryIntMS)},
@@ -165,12 +187,20 @@ func execute(x *explore.Exec, sc *Scn) *result {
 			})
 		}
 		vtime.Sleep(time.Duration(sc.FailDurMS+sc.TryDurMS+sc.HoldMS+3000) * time.Millisecond)
-		// snapshot the counters at quiescence
+		// snapshot the counters at quiescence (before the context is cancelled: cleanup removes
+		// the peers from the global pool)
+		st := l4proxy.VerifPeerStates()
+		res.snapshotAt = vsched.NowNS()
+		if len(st) < len(targets(sc)) {
+			panic(fmt.Sprintf("peer pool has %d entries, want %d", len(st), len(targets(sc))))
+		}
 		cancel() // stops the active health checker
 		vtime.Sleep(time.Second)
-		st := l4proxy.VerifPeerStates()
 		for _, a := range addrs {
 			res.peers = append(res.peers, []l4proxy.VerifPeerState{st[a]})
+		}
+		if sc.Peers == 2 {
+			res.peers[0] = append(res.peers[0], st[secondPeer])
 		}
 	})
 	l4proxy.VerifResetPeers()
@@ -196,7 +226,7 @@ func check(x *explore.Exec, sc *Scn, r *result) {
 			if d.Health {
 				kind = "hc"
 			}
-			fmt.Fprintf(&sb, "dial%s(%.3fs up%d ok=%v) ", kind, float64(d.At)/1e9, d.Up, d.OK)
+			fmt.Fprintf(&sb, "dial%s(%.3fs up%d.%d ok=%v) ", kind, float64(d.At)/1e9, d.Up, d.Peer, d.OK)
 		}
 		for i, c := range r.conns {
 			fmt.Fprintf(&sb, "conn%d(arrive %.3fs return %.3fs %q) ", i, float64(c.Arrive)/1e9, float64(c.ReturnAt)/1e9, c.Err)
@@ -216,10 +246,19 @@ func check(x *explore.Exec, sc *Scn, r *result) {
 			if p.NumConns < 0 || p.Fails < 0 {
 				x.Fail("negative-counter", "upstream %d has a negative counter: %+v; %s", u, p, desc())
 			}
-			if p.NumConns != 0 || p.Fails != 0 {
+			// (a handler or an expiry timer the scheduler delayed past the snapshot is still counted)
+			quiet := x.Used(explore.KTime) == 0
+			for _, c := range r.conns {
+				quiet = quiet && c.Returned && c.ReturnAt < r.snapshotAt
+			}
+			if quiet && (p.NumConns != 0 || p.Fails != 0) {
 				x.Fail("counter-not-zero-at-quiescence", "upstream %d still counts conns=%d fails=%d after every connection ended and every failure expired; %s", u, p.NumConns, p.Fails, desc())
 			}
 		}
+	}
+	if sc.Peers == 2 {
+		checkMultiPeer(x, sc, r, desc)
+		return
 	}
 	if x.Used(explore.KTime) > 0 {
 		x.Observe("time-deviation")
@@ -397,6 +436,62 @@ func check(x *explore.Exec, sc *Scn, r *result) {
 	x.Observe(sb.String(), served)
 }
 
+// checkMultiPeer judges the family in which upstream 0 has two dial addresses (passive failure
+// tracking off, so only open connections can take an upstream out of rotation): an attempt
+// on upstream 0 dials peer 0 and, only if that succeeded, peer 1; a connection is served iff
+// one of its attempts reached every peer of an upstream; an attempt that failed half-way
+// leaves nothing behind (the counters clause above), so upstream 0 is chosen again.
+func checkMultiPeer(x *explore.Exec, sc *Scn, r *result, desc func() string) {
+	complete := 0
+	for i, d := range r.dials {
+		switch {
+		case d.Up == 0 && d.Peer == 1:
+			if x.Used(explore.KTime) == 0 && (i == 0 || r.dials[i-1].Up != 0 || r.dials[i-1].Peer != 0 || !r.dials[i-1].OK || r.dials[i-1].At != d.At) {
+				x.Fail("peer-dialled-out-of-turn", "the second peer of upstream 0 was dialled without a successful dial of its first peer just before; %s", desc())
+				return
+			}
+			if d.OK {
+				complete++
+			}
+		case d.Up == 1 && d.OK:
+			complete++
+		}
+	}
+	okConns := 0
+	for i, c := range r.conns {
+		if !c.Returned {
+			x.Fail("handle-never-returned", "connection %d: Handle did not return; %s", i, desc())
+			return
+		}
+		if c.Err == "" {
+			okConns++
+		}
+	}
+	if complete != okConns {
+		x.Fail("served-count-differs", "%d attempts reached every peer of an upstream but %d connections ended without error; %s", complete, okConns, desc())
+	}
+	if x.Used(explore.KTime) > 0 {
+		x.Observe("time-deviation")
+		return
+	}
+	if sc.HoldMS == 0 {
+		// every connection has ended before the next arrives or retries: nothing is open, so
+		// the 'first' policy starts every attempt at upstream 0
+		for i, d := range r.dials {
+			if d.Up == 1 && (i == 0 || r.dials[i-1].At != d.At) {
+				// a dial of upstream 1 that is the first dial of its instant
+				x.Fail("wrong-upstream", "upstream 1 was dialled at %.3fs although upstream 0 has no open connection and no failure tracking (a half-failed attempt must not stay counted); %s", float64(d.At)/1e9, desc())
+				return
+			}
+		}
+	}
+	var sb strings.Builder
+	for _, d := range r.dials {
+		fmt.Fprintf(&sb, "%d.%d%v", d.Up, d.Peer, d.OK)
+	}
+	x.Observe(sb.String(), okConns)
+}
+
 func u2b(u int) int { return u }
 
 func availableIgnoringConns(u int, fails [2][]int64, failDur int64, maxFails int, sc *Scn, down [2]bool, t int64) bool {
@@ -450,6 +545,21 @@ func scenarios(tier string, yield func(any) bool) {
 			}
 		}
 	}
+	// upstream 0 with two dial addresses: every vector of failing dials, with and without a limit
+	for _, mc := range []int{0, 1, 2} {
+		for _, arr := range [][]int{{0}, {0, 100}, {0, 100, 200}} {
+			for _, td := range []int{0, 500} {
+				for _, hold := range []int{0, 1000} {
+					if hold > 0 && (mc == 0 || len(arr) < 2) {
+						continue
+					}
+					if !yield(&Scn{TryDurMS: td, TryIntMS: 250, MaxConns: mc, Arrivals: arr, HoldMS: hold, MaxFailing: 3, Peers: 2}) {
+						return
+					}
+				}
+			}
+		}
+	}
 	// active health checks with a scripted outage of upstream 0
 	for _, out := range [][2]int{{500, 2500}, {0, 1200}, {1500, 1600}} {
 		if !yield(&Scn{ActiveMS: 1000, TryDurMS: 0, TryIntMS: 250, Arrivals: []int{200, 700, 1200, 2700, 3200, 4200}, Outage: out}) {
@@ -472,7 +582,7 @@ func main() {
 	runner.Main(&runner.Harness{
 		ID:    "C11",
 		Level: "model_checking",
-		Rule:  "proxy handler with two single-peer upstreams and the 'first' policy: settings fail_duration {0,2 s} x max_fails {0,1,2} x try_duration {0,1 s} x try_interval {250,400 ms} x 6 arrival patterns (1-5 connections) with EVERY success/failure vector of the dials (up to 3, thorough 5, failing dials); max_connections / unhealthy_connection_count {1,2} with overlapping 1 s connections; active checks (1 s) with scripted outages; x every interleaving within the delay budget. A reference model (failure timestamps per peer, open connections per upstream, active-check verdicts) replays the same dial outcomes and predicts every dial's target and every connection's fate and give-up time",
+		Rule:  "proxy handler with two single-peer upstreams (and a family in which upstream 0 has two dial addresses) and the 'first' policy: settings fail_duration {0,2 s} x max_fails {0,1,2} x try_duration {0,1 s} x try_interval {250,400 ms} x 6 arrival patterns (1-5 connections) with EVERY success/failure vector of the dials (up to 3, thorough 5, failing dials); max_connections / unhealthy_connection_count {1,2} with overlapping 1 s connections; active checks (1 s) with scripted outages; x every interleaving within the delay budget. A reference model (failure timestamps per peer, open connections per upstream, active-check verdicts) replays the same dial outcomes and predicts every dial's target and every connection's fate and give-up time",
 		Assumptions: []string{
 			"arrival instants are chosen so that no dial coincides with a failure's expiry instant",
 			"timing clauses are only asserted on executions without timer deviations",
